@@ -436,6 +436,101 @@ pub fn run(tier: Tier) -> Run {
             run.add(v);
         }
     }
+    // every declared opcode a against EVERY 16-bit number b, in both orders (a memo keyed on part of the number shows up as
+    // an alias between a declared and an undeclared number)
+    {
+        use rayon::prelude::*;
+        let alone: Vec<Option<&'static str>> = (0..=u16::MAX).map(|n| g::CoreInstructionTable::lookup_opcode(n).map(|e| e.opname)).collect();
+        let ops: Vec<u16> = gd.insts.iter().map(|i| i.opcode).collect();
+        let bad: Vec<crate::report::Viol> = ops
+            .par_iter()
+            .filter_map(|&a| {
+                for b in 0..=u16::MAX {
+                    let _ = g::CoreInstructionTable::lookup_opcode(a);
+                    let got = g::CoreInstructionTable::lookup_opcode(b).map(|e| e.opname);
+                    if got != alone[b as usize] {
+                        return Some(viol("C09:core:after-declared", format!("lookup_opcode({}) directly after lookup_opcode({}) gives {:?}, alone {:?}", b, a, got, alone[b as usize]), json!({"kind": "c09-pair", "first": a, "second": b})));
+                    }
+                    let got = g::CoreInstructionTable::lookup_opcode(a).map(|e| e.opname);
+                    if got != alone[a as usize] {
+                        return Some(viol("C09:core:after-any", format!("lookup_opcode({}) directly after lookup_opcode({}) gives {:?}, alone {:?}", a, b, got, alone[a as usize]), json!({"kind": "c09-pair", "first": b, "second": a})));
+                    }
+                }
+                None
+            })
+            .collect();
+        evals += ops.len() as u64 * 65536 * 2;
+        for v in bad.into_iter().take(5) {
+            run.add(v);
+        }
+        // the same for the two extended tables over 0..=4095 x declared
+        for (tn, declared, look) in [
+            ("OpenCL.std", gd.opencl.iter().map(|e| e.opcode).collect::<Vec<u32>>(), (|n| g::OpenCLStd100InstructionTable::lookup_opcode(n).map(|e| e.opname)) as fn(u32) -> Option<&'static str>),
+            ("GLSL.std.450", gd.glsl.iter().map(|e| e.opcode).collect::<Vec<u32>>(), (|n| g::GlslStd450InstructionTable::lookup_opcode(n).map(|e| e.opname)) as fn(u32) -> Option<&'static str>),
+        ] {
+            let alone: Vec<Option<&'static str>> = (0..4096u32).map(look).collect();
+            'outer: for &a in &declared {
+                for b in 0..4096u32 {
+                    let _ = look(a);
+                    if look(b) != alone[b as usize] || look(a) != alone[a as usize] {
+                        run.add(viol(format!("C09:{}:after-declared", tn), format!("{}: lookups of {} and {} one after the other differ from the lookups alone", tn, a, b), json!({"kind": "c09-pair", "table": tn, "first": a, "second": b})));
+                        break 'outer;
+                    }
+                    evals += 3;
+                }
+            }
+        }
+    }
+    // SUPPLEMENTARY, SAMPLED: 16 threads look different declared numbers up at the same time for a short while (steady state,
+    // after every lazily built structure is complete); each answer must be the entry of the number asked for
+    {
+        let wrong = std::sync::atomic::AtomicU64::new(0);
+        let asked = std::sync::atomic::AtomicU64::new(0);
+        let cl: Vec<(u32, &str)> = gd.opencl.iter().map(|e| (e.opcode, e.name.as_str())).collect();
+        let gl: Vec<(u32, &str)> = gd.glsl.iter().map(|e| (e.opcode, e.name.as_str())).collect();
+        let co: Vec<(u16, &str)> = gd.insts.iter().map(|e| (e.opcode, e.name.as_str())).collect();
+        let rounds = tier.pick(300, 3000);
+        std::thread::scope(|sc| {
+            for t in 0..16usize {
+                let (cl, gl, co, wrong, asked) = (&cl, &gl, &co, &wrong, &asked);
+                sc.spawn(move || {
+                    let mut n = 0u64;
+                    let mut w = 0u64;
+                    for r in 0..rounds {
+                        for k in 0..cl.len() {
+                            let (num, name) = cl[(k * (t + 1) + r) % cl.len()];
+                            n += 1;
+                            if g::OpenCLStd100InstructionTable::lookup_opcode(num).map(|e| e.opname) != Some(name) {
+                                w += 1;
+                            }
+                        }
+                        for k in 0..gl.len() {
+                            let (num, name) = gl[(k * (t + 1) + r) % gl.len()];
+                            n += 1;
+                            if g::GlslStd450InstructionTable::lookup_opcode(num).map(|e| e.opname) != Some(name) {
+                                w += 1;
+                            }
+                        }
+                        for k in (t..co.len()).step_by(7) {
+                            let (num, name) = co[(k + r) % co.len()];
+                            n += 1;
+                            if g::CoreInstructionTable::lookup_opcode(num).map(|e| e.opname) != Some(name) {
+                                w += 1;
+                            }
+                        }
+                    }
+                    wrong.fetch_add(w, std::sync::atomic::Ordering::Relaxed);
+                    asked.fetch_add(n, std::sync::atomic::Ordering::Relaxed);
+                });
+            }
+        });
+        let (w, n) = (wrong.into_inner(), asked.into_inner());
+        run.outcome("sampled_concurrent_steady_state_lookups", n);
+        evals += n;
+        if w > 0 {
+            run.add(viol("C09:concurrent-steady-state", format!("{} of {} lookups made by 16 threads at the same time returned the entry of another number (or none)", w, n), json!({"kind": "c09-concurrent"})));
+        }
+    }
     // interleaved lookups: the same number through one table, then the other, then the first again
     for n in (0..=0xFFFFu32).chain([0x1_0000, 0x1_001F, u32::MAX]) {
         evals += 3;
